@@ -318,6 +318,7 @@ func runC10(c *eng.Ctx) {
 	defer func() {
 		RunEqualValues(c, "C10", cr.next)
 		RunValueDisposables(c, "C10", cr.next)
+		RunFuncDisposables(c, "C10", cr.next)
 		RunPartialOutputs(c, "C10", cr.next)
 		if C10Overlap != nil {
 			C10Overlap(c, cr.next)
